@@ -101,6 +101,14 @@ type Master struct {
 	SubscribeCount int
 	// HookTerminates: a triggered hook task runs to termination (BASIC_TASK_TERMINATED device event + final status).
 	HookTerminates bool
+	// AfterCall, if set, runs after a framework call has been handled completely
+	// (replies / status updates it caused are already in the event stream).
+	AfterCall func(c *CallRec)
+	// LostIsSilent: MESSAGE calls for tasks whose executor or agent was reported lost
+	// (FailExecutor / FailAgent) are accepted but nobody answers them (Mesos MESSAGE is
+	// best effort); default false = the error reply of a live executor without that task.
+	LostIsSilent bool
+	lostExec     map[string]bool
 }
 
 // NewMaster creates a master with the given agents.
@@ -158,6 +166,15 @@ func (m *Master) rec(c CallRec) *CallRec {
 
 // Call implements calls.Caller.
 func (m *Master) Call(ctx context.Context, c *scheduler.Call) (mesos.Response, error) {
+	n0 := len(m.Calls)
+	resp, err := m.call(ctx, c)
+	if m.AfterCall != nil && len(m.Calls) > n0 {
+		m.AfterCall(&m.Calls[len(m.Calls)-1])
+	}
+	return resp, err
+}
+
+func (m *Master) call(ctx context.Context, c *scheduler.Call) (mesos.Response, error) {
 	fid := ""
 	if c.FrameworkID != nil {
 		fid = c.FrameworkID.Value
@@ -419,6 +436,10 @@ func (m *Master) message(fid string, msg *scheduler.Call_Message) (mesos.Respons
 		var cmd controlcommands.MesosCommand_Transition
 		_ = json.Unmarshal(msg.Data, &cmd)
 		r := m.rec(CallRec{Type: "MESSAGE", FID: fid, Task: tid, Detail: cmd.Event})
+		if t != nil && m.LostIsSilent && m.lostExec[t.AgentID+"/"+t.ExecutorID] {
+			r.Detail += " (executor lost, dropped)"
+			return nullResp{}, nil
+		}
 		if t == nil || !t.Alive {
 			reply(controlcommands.NewMesosCommandResponse_Transition(&cmd, fmt.Errorf("no active task %s", tid), "", tid))
 			return nullResp{}, nil
@@ -508,6 +529,10 @@ func (m *Master) FailTask(t *SimTask, st mesos.TaskState) {
 
 // FailExecutor reports the loss of an executor (FAILURE event).
 func (m *Master) FailExecutor(agentID, execID string) {
+	if m.lostExec == nil {
+		m.lostExec = map[string]bool{}
+	}
+	m.lostExec[agentID+"/"+execID] = true
 	for _, t := range m.Tasks {
 		if t.ExecutorID == execID {
 			t.Alive = false
@@ -523,9 +548,13 @@ func (m *Master) FailAgent(agentID string) {
 	if a := m.agent(agentID); a != nil {
 		a.Lost = true
 	}
+	if m.lostExec == nil {
+		m.lostExec = map[string]bool{}
+	}
 	for _, t := range m.Tasks {
 		if t.AgentID == agentID {
 			t.Alive = false
+			m.lostExec[agentID+"/"+t.ExecutorID] = true
 		}
 	}
 	m.push(&scheduler.Event{Type: scheduler.Event_FAILURE, Failure: &scheduler.Event_Failure{AgentID: &mesos.AgentID{Value: agentID}}})
